@@ -85,6 +85,8 @@ def hook_list_rule(ctx):
 
 
 def run(ctx):
+    from .C13 import handoff_queue_fifo
+    handoff_queue_fifo(ctx)
     saved_context_is_a_copy(ctx, "C07")
     # locals / parameters the rules below refer to by name (a rename makes the analysis 'broken', never a violation)
     ctx.anchor(ctx.fn1('Oomd::BaseKillPlugin::resumeTryingToKillSomething'), 'candidate', 'nextBestOptionStack')
